@@ -26,7 +26,23 @@ META = {
                   "srctools._engine_db:iodef_serialise", "srctools._engine_db:iodef_unserialise",
                   "srctools._engine_db:BinStrDict.serialise", "srctools._engine_db:BinStrDict.unserialise",
                   "srctools._engine_db:EngineDB.get_ent", "srctools._engine_db:EngineDB._parse_block",
-                  "srctools._engine_db:EngineDB.get_fgd", "srctools._engine_db:make_lookup"],
+                  "srctools._engine_db:EngineDB.get_fgd", "srctools._engine_db:make_lookup",
+                  "srctools.fgd:Helper.parse", "srctools.fgd:UnknownHelper.export",
+                  "srctools._fgd_helpers:_HelperOneOptional.parse", "srctools._fgd_helpers:_HelperOneOptional.export",
+                  "srctools._fgd_helpers:HelperSize.parse", "srctools._fgd_helpers:HelperSize.export",
+                  "srctools._fgd_helpers:HelperRenderColor.parse", "srctools._fgd_helpers:HelperRenderColor.export",
+                  "srctools._fgd_helpers:HelperSphere.parse", "srctools._fgd_helpers:HelperSphere.export",
+                  "srctools._fgd_helpers:HelperLine.parse", "srctools._fgd_helpers:HelperLine.export",
+                  "srctools._fgd_helpers:HelperFrustum.parse", "srctools._fgd_helpers:HelperFrustum.export",
+                  "srctools._fgd_helpers:HelperCylinder.parse", "srctools._fgd_helpers:HelperCylinder.export",
+                  "srctools._fgd_helpers:HelperBoundingBox.parse", "srctools._fgd_helpers:HelperBoundingBox.export",
+                  "srctools._fgd_helpers:HelperSprite.parse", "srctools._fgd_helpers:HelperSprite.export",
+                  "srctools._fgd_helpers:HelperModel.parse", "srctools._fgd_helpers:HelperModel.export",
+                  "srctools._fgd_helpers:HelperLightSpot.parse", "srctools._fgd_helpers:HelperLightSpot.export",
+                  "srctools._fgd_helpers:HelperLightSpotBlackMesa.parse", "srctools._fgd_helpers:HelperLightSpotBlackMesa.export",
+                  "srctools._fgd_helpers:HelperRope.parse", "srctools._fgd_helpers:HelperRope.export",
+                  "srctools._fgd_helpers:HelperExtAppliesTo.parse", "srctools._fgd_helpers:HelperExtOrderBy.parse",
+                  "srctools._fgd_helpers:HelperExtAutoVisgroups.parse"],
     "bounds": "text: symbolic str (all code points; exact length per slice: quick 0..2 single slot / two slots with total <= 2, "
               "thorough also readonly/report variants; numeric-looking alphabet {0-9 + - blank _ . e} up to length 2, thorough 3 / 2+1) "
               "in one or two of: keyvalue display name / default / description; one symbolic leaf (len 0..1, thorough 2) among input / "
@@ -37,19 +53,37 @@ META = {
               "custom_syntax / label_spawnflags / readonly / report symbolic bools. binary: a two-entity block + CBaseEntity with "
               "symbolic readonly/default/alias bits, flag power and value-type / resource-type / kind index by symbolic index (one "
               "free per slice). lazy: 7-entity 3-block database with same-block, cross-block and chained aliases, every sequence "
-              "of 1..3 queries (thorough 4) out of the 7 class names by symbolic index, then the eager load",
+              "of 1..3 queries (thorough 4) out of the 7 class names by symbolic index, then the eager load. "
+              "helpers (extension 2): every HelperTypes member + UnknownHelper (the table is checked against the tree's HelperTypes / "
+              "HELPER_IMPL on every start), every accepted argument count, every optional argument with its default and a non-default "
+              "value, numbers / colours / vectors concrete 6-digit-exact constants -- kind, form and alternatives by symbolic index "
+              "(enumeration in solver clothing); one string argument symbolic (all code points, exact length 0..1, thorough 2) in a "
+              "position chosen by symbolic index (line()/cylinder() colour pinned in those slices); direct parse/export route and the "
+              "real text route (helper between two fixed helpers, custom_syntax symbolic). binary (extension 2): kv_* / iodef_* / "
+              "ent_* called directly: first flag bit index 0..31, 126, 127 x second flag bit index {0, 5, 23} by symbolic index with "
+              "three symbolic default bits and symbolic readonly; every ValueTypes member (43) as keyvalue and I/O type; 6 shapes the "
+              "format must refuse",
     "outside": "the complete bundled database as a symbolic object (it is one concrete input: its custom-syntax text round trip "
                "and its cross-block aliases in both query orders are run natively as concrete supplements); the LZMA container and serialise()'s block packing "
                "heuristic (needs >=512 shared strings); symbolic characters inside 1000+-char strings (one path > 300 s); custom_syntax=False with '\"' or '\\\\' in text (documented lossy "
                "substitution), choice labels with '\"', '\\\\' or newline (always written in the legacy escaping), spawnflag "
                "labels with newline / leading blank / leading '[' (label convention), spawnflags keyvalues with a default or "
                "description, key/class/helper names as symbolic strings (they are dict keys: chosen from finite lists), "
-               "@snippet, @include, @mapsize, @MaterialExclusion, @AutoVisgroup, strings longer than the bounds",
+               "@snippet, @include, @mapsize, @MaterialExclusion, @AutoVisgroup, strings longer than the bounds; helpers: "
+               "a lone empty argument (`name()` reads as no arguments, so origin('') / keyframe('') / sphere('') cannot be written), "
+               "arguments containing ',' '(' ')' or surrounding whitespace (the header syntax has no quoting), numeric arguments as "
+               "symbolic text (float()/'%g' are C code; non-6-digit-exact numbers are rounded by format_float/'%g' by design), "
+               "frustum() / orderby() / autovis() arguments only by index (float() resp. dict keys), HelperInherit in the text "
+               "(base() is special-cased by EntityDef), the second export after autovis() (parse-only sugar for @AutoVisGroup); "
+               "binary: flag masks that are not powers of two, flag lists > 255 entries",
     "stubs": ["srctools.tokenizer.BARE_DISALLOWED frozenset -> tuple", "casefold fast path",
               "srctools._engine_db.io.BytesIO -> vf.stubs.binio.ModelBytesIO; srctools._engine_db Struct instances -> "
               "binio.ModelStruct (self-tested against struct/io on every start)",
-              "fake filesys.File whose open_str() hands the written pieces to the parser's own Tokenizer"],
-    "trusted_base": ["crosshair-tool 0.0.110", "z3", "vf/chx.py", "vf/stubs/binio.py"],
+              "fake filesys.File whose open_str() hands the written pieces to the parser's own Tokenizer",
+              "helpers.* only: srctools.math.float / srctools._fgd_helpers.float -> vf.stubs.floatstub.FloatShim (exact C float() on "
+              "a de-proxied string whose characters are concrete); the helper piece `name(a, b)` is re-cut at the argument "
+              "boundaries after a solver-checked equality with the written piece"],
+    "trusted_base": ["crosshair-tool 0.0.110", "z3", "vf/chx.py", "vf/stubs/binio.py", "vf/stubs/floatstub.py"],
     "assumptions": ["chunked delivery is equivalent to joined delivery (C03; one joined-string obligation here)",
                     "lzma round-trips concrete bytes (left real; string tables are concrete)",
                     "float(value) in KVDef.export (choices) is C code: choice values are concrete, drawn by symbolic index"],
@@ -889,6 +923,7 @@ HELPER_FORMS = {
 HELPER_NOSLOT = ("frustum",)
 # text route: names the exporter / parser hash (dict keys): by index only
 HELPER_TEXT_NOSLOT = ("frustum", "orderby", "autovis")
+HELPER_SLOT_PIN_N = ("line", "cylinder")
 HELPER_NOARG = [k for k, v in HELPER_FORMS.items() if v == [()] and k != "base"]
 HELPER_KINDS = list(HELPER_FORMS)
 _HTABLE_OK = []
@@ -960,7 +995,12 @@ def _helper_args(kinds, k_i, f_i, idx, s, p_i, slot, n, text, pos=-1):
             p = pick(spos, p_i)
     args = []
     for j in range(len(form)):
-        args.append(s if j == p else pick(form[j][1], idx[j]))
+        if j == p:
+            args.append(s)
+        elif slot and form[j][0] == "n" and kind in HELPER_SLOT_PIN_N:
+            args.append(form[j][1][0])      # line()/cylinder() colour has no default: both values only in the slot-free slice
+        else:
+            args.append(pick(form[j][1], idx[j]))
     # `name()` means "no arguments": the header parser never hands over a lone empty argument
     assume(not (len(args) == 1 and len(args[0]) == 0))
     return kind, args
@@ -982,7 +1022,25 @@ def _textable(a):
     return (a.strip() == a) and all([(c != ',') & (c != '(') & (c != ')') for c in a])
 
 
-def _helper_text(kind, h, cs):
+def _recut(parts, h):
+    """Rule (i): the writer puts `\n\tname(a, b)` into ONE piece; with a symbolic argument inside, every later character
+    of that piece costs a solver query in the tokenizer (measured 5.7 s per path for cylinder()).  If the piece equals
+    (solver-checked) the concatenation prefix + arguments + separators, the parser is fed these shorter pieces instead
+    (chunked delivery == joined delivery: C03 and kv.joined); otherwise the original piece is delivered."""
+    from srctools.fgd import UnknownHelper
+    name = h.name if isinstance(h, UnknownHelper) else h.TYPE.value
+    cut = ["\n\t" + name + "("]
+    for j, a in enumerate(h.export()):
+        if j:
+            cut.append(", ")
+        cut.append(a)
+    cut.append(")")
+    if len(parts) > 2 and parts[2] == "".join(cut):
+        return parts[:2] + cut + parts[3:]
+    return parts
+
+
+def _helper_text(kind, h, cs, recut=False):
     """The helper between two fixed ones on an entity: FGD.export -> pieces -> FGD.parse_file -> same helpers, same text again."""
     from srctools.fgd import KVDef, ValueTypes, UnknownHelper, HelperTypes, HELPER_IMPL
     f, e = _one_ent("POINT", "helper_ent")
@@ -992,7 +1050,7 @@ def _helper_text(kind, h, cs):
     _add_kv(e, KVDef("alpha", ValueTypes.INT, "Alpha", "1", ""))
     _add_kv(e, KVDef("beta", ValueTypes.STRING, "Beta", "b", ""))
     parts = _export(f, cs, True)
-    g = _parse(parts)
+    g = _parse(_recut(parts, h) if recut else parts)
     ge = g.entities["helper_ent"]
     want = [pre, h, post]
     if kind == "autovis" or (h.IS_EXTENSION and not cs):
@@ -1043,7 +1101,7 @@ def h_helper(s: str, k_i: int, f_i: int, p_i: int, i0: int, i1: int, i2: int, i3
     h = _helper_direct(kind, args)
     ex = h.export()
     assume(not (len(ex) == 1 and len(ex[0]) == 0))       # ... nor can the text carry one (`sphere()` reads as no arguments)
-    _helper_text(kind, h, cs)
+    _helper_text(kind, h, cs, recut=slot and n > 0)
 
 
 def h_helper_witness(s: str, k_i: int, f_i: int, p_i: int, i0: int, i1: int, i2: int, i3: int, i4: int, i5: int, i6: int, cs: bool,
@@ -1083,7 +1141,7 @@ def _cmp_binkv(kv, o, w):
         check(o.val_list is None, w + " value list", o.val_list)
 
 
-def h_binkv(vt_i: int, b_i: int, b2_i: int, ro: bool, d1: bool, d2: bool, d3: bool, v_i: int, mode: str) -> None:
+def h_binkv(vt_i: int, b_i: int, b2_i: int, ro: bool, d1: bool, d2: bool, d3: bool, v_i: int, mode: str, b2: int = -1) -> None:
     """kv_serialise/kv_unserialise, iodef_serialise/iodef_unserialise and ent_serialise/ent_unserialise called directly on
     a real string table.  mode 'flags': a spawnflags keyvalue whose first flag has bit index b (every index 0..31, 126,
     127 by symbolic index: math.log2 is C code) and whose default bits are symbolic; 'types': EVERY ValueTypes member as
@@ -1095,6 +1153,8 @@ def h_binkv(vt_i: int, b_i: int, b2_i: int, ro: bool, d1: bool, d2: bool, d3: bo
     none = frozenset()
     types = list(ValueTypes)
     assume(0 <= vt_i < len(types) and 0 <= b_i < len(BIN_POWERS) and 0 <= b2_i < len(BIN_POWERS2) and 0 <= v_i < 6)
+    if b2 >= 0:
+        assume(b2_i == b2)
     if mode != "types":
         assume(vt_i == 0)
     if mode != "flags":
@@ -1182,8 +1242,8 @@ def h_binkv(vt_i: int, b_i: int, b2_i: int, ro: bool, d1: bool, d2: bool, d3: bo
             check(o.name == tmap[none].name and o.type is tmap[none].type, "entity io", o, tmap[none])
 
 
-def h_binkv_witness(vt_i: int, b_i: int, b2_i: int, ro: bool, d1: bool, d2: bool, d3: bool, v_i: int, mode: str) -> None:
-    h_binkv(vt_i, b_i, b2_i, ro, d1, d2, d3, v_i, mode)
+def h_binkv_witness(vt_i: int, b_i: int, b2_i: int, ro: bool, d1: bool, d2: bool, d3: bool, v_i: int, mode: str, b2: int = -1) -> None:
+    h_binkv(vt_i, b_i, b2_i, ro, d1, d2, d3, v_i, mode, b2)
     raise Fail("reached")
 
 
@@ -1327,7 +1387,7 @@ def obligations(tier):
                     slices=[{"kinds": "lightcone", "slot": True, "n": 1, "text": True},
                             {"kinds": "frustum", "slot": False, "n": 0, "text": True},
                             {"kinds": ",".join(HELPER_KINDS), "slot": True, "n": 1, "text": False}], desc="reachability twin"))
-    obls.append(Obl("bin.kv", MOD, "h_binkv", slices=[{"mode": "flags"}, {"mode": "types"}, {"mode": "refuse"}],
+    obls.append(Obl("bin.kv", MOD, "h_binkv", slices=[{"mode": "flags", "b2": k} for k in range(len(BIN_POWERS2))] + [{"mode": "types"}, {"mode": "refuse"}],
                     budget_s=900 if q else 3000, per_path_s=60,
                     desc="kv_serialise/kv_unserialise, iodef_serialise/iodef_unserialise, ent_serialise/ent_unserialise called "
                          "directly: spawnflags with every bit index 0..31, 126, 127 and symbolic default bits; EVERY ValueTypes "
@@ -1335,6 +1395,6 @@ def obligations(tier):
                          "flags refused with ValueError",
                     bound="bit index (34) x second bit index (3) / value type (43) / refused shape (6) by symbolic index; readonly "
                           "and three default bits symbolic"))
-    obls.append(Obl("bin.kv.witness", MOD, "h_binkv_witness", witness=True, slices=[{"mode": "flags"}, {"mode": "types"}],
+    obls.append(Obl("bin.kv.witness", MOD, "h_binkv_witness", witness=True, slices=[{"mode": "flags", "b2": 1}, {"mode": "types"}],
                     budget_s=300, per_path_s=60, desc="reachability twin"))
     return obls
